@@ -54,6 +54,14 @@ CFG = {
         "files": ["src/geom2/polyline2.rs", "src/geom2/line2.rs", "src/geom2/curve2.rs"],
         "tol": {"*": 1e-9, "ray.intersections": 1e-7, "ray.param": 1e-6},
     },
+    "C08": {
+        "cases": {"quick": 4800, "thorough": 480000},
+        "level_text": "Theorems (ℝ): the rotation-centred parameter objects reproduce the initial isometry (2-D outright; 3-D given the Euler round trip, which is proved for every Euler triple away from and exactly at gimbal lock), keep inverse and moved centre consistent after every update, and a pure-translation update translates; the Euler derivative matrices (skew matrices REGENERATED from the source) are the entrywise derivatives of Rx·Ry·Rz (HasDerivAt); the 2-D Jacobian row is the derivative of the scalar projection. Analytic Jacobians are also compared with central finite differences of the implementation's own residuals on every run.",
+        "level_note": "Trusted: Lean kernel, Mathlib, hand-written model validated by the correspondence run; nalgebra quaternion/Euler conversions are compared, not proved; rounding not analysed.",
+        "files": ["src/geom2/align2.rs", "src/geom2/align2/rc_params2.rs", "src/geom2/align2/jacobian.rs", "src/geom3/align3.rs", "src/geom3/align3/rotations.rs", "src/geom3/align3/jacobian.rs", "src/geom3/align3/multi_param.rs"],
+        "tol": {"*": 1e-8, "param.wpr": 1e-6, "jac.row3": 1e-7},
+        "claimed": False,
+    },
     "C09": {
         "cases": {"quick": 800, "thorough": 80000},
         "level_text": "Theorems (every ordered field): the power sums the code accumulates (loop bound REGENERATED from the source) are complete; any solution of the normal equations makes the weighted residual orthogonal to every monomial and therefore minimises the weighted sum of squares over ALL coefficient vectors; exact data satisfy the normal equations; the series best-fit line solves the degree-1 normal equations. The implementation's coefficients are substituted into the model's normal equations on every run; circle fit / RANSAC clauses are validated per result (partial).",
